@@ -224,6 +224,17 @@ func (m *MethodExpr) Validate() error {
 // bases recursively looking for an attribute with the given tag meta. This
 // recursion is only needed for attributes that have not been finalized yet.
 func hasTag(p *AttributeExpr, tag string) bool {
+	return hasTagRec(p, tag, make(map[*AttributeExpr]struct{}))
+}
+
+// hasTagRec implements hasTag, seen records the attributes already visited so
+// that types that extend or refer to each other do not cause an endless
+// recursion.
+func hasTagRec(p *AttributeExpr, tag string, seen map[*AttributeExpr]struct{}) bool {
+	if _, ok := seen[p]; ok {
+		return false
+	}
+	seen[p] = struct{}{}
 	if p.HasTag(tag) {
 		return true
 	}
@@ -232,12 +243,12 @@ func hasTag(p *AttributeExpr, tag string) bool {
 		if !ok {
 			continue
 		}
-		if hasTag(ut.Attribute(), tag) {
+		if hasTagRec(ut.Attribute(), tag, seen) {
 			return true
 		}
 	}
 	if ut, ok := p.Type.(UserType); ok {
-		return hasTag(ut.Attribute(), tag)
+		return hasTagRec(ut.Attribute(), tag, seen)
 	}
 	return false
 }
@@ -246,6 +257,15 @@ func hasTag(p *AttributeExpr, tag string) bool {
 // bases recursively looking for an attribute with the given tag meta prefix. This
 // recursion is only needed for attributes that have not been finalized yet.
 func hasTagPrefix(p *AttributeExpr, prefix string) bool {
+	return hasTagPrefixRec(p, prefix, make(map[*AttributeExpr]struct{}))
+}
+
+// hasTagPrefixRec implements hasTagPrefix, see hasTagRec.
+func hasTagPrefixRec(p *AttributeExpr, prefix string, seen map[*AttributeExpr]struct{}) bool {
+	if _, ok := seen[p]; ok {
+		return false
+	}
+	seen[p] = struct{}{}
 	if p.HasTagPrefix(prefix) {
 		return true
 	}
@@ -254,12 +274,12 @@ func hasTagPrefix(p *AttributeExpr, prefix string) bool {
 		if !ok {
 			continue
 		}
-		if hasTagPrefix(ut.Attribute(), prefix) {
+		if hasTagPrefixRec(ut.Attribute(), prefix, seen) {
 			return true
 		}
 	}
 	if ut, ok := p.Type.(UserType); ok {
-		return hasTagPrefix(ut.Attribute(), prefix)
+		return hasTagPrefixRec(ut.Attribute(), prefix, seen)
 	}
 	return false
 }
